@@ -255,6 +255,10 @@ def generate(plan) -> None:
         # found at a drawn level (a write that finds < 1 token is dropped by design: C07/C09 still apply, C08's counts do not)
         k["limits"] = rt.random() < 0.3
         k["mqtt_tokens"] = rt.choice([160, 160, 40, 8, 2, 0.5])
+    if sc in ("send", "episode") and k.get("tr") != "mqtt" and not fault_free:
+        x = rt.random()
+        k["sig_echo"] = "never" if x < 0.06 else ("late" if x < 0.15 else "ok")
+        k["sig_nth"] = rt.choice([2, 5, 20, 39, 40])
     horizon = max((d["at"] for d in ops), default=0) + 5.0
     if not fault_free and sc in ("send", "episode", "burst"):
         for _ in range(r.choice([0, 0, 1, 2, 3])):
@@ -324,6 +328,11 @@ class QosSim:
         f = frame.decode()
         if " 7FFF " in f:
             if not self.connected:
+                # the dongle's start-up: how the echo of the signature poll comes back (never = a dongle that is silent for the whole
+                # poll, so the transport connects without knowing its own id; late = only the n-th poll is echoed)
+                se = self.plan.knob("sig_echo", "ok")
+                if se == "never" or (se == "late" and nth < self.plan.knob("sig_nth", 5)):
+                    return []
                 return [0.01]
             self.alert_n += 1
             self.all_writes.append((self.now(), "alert", f))
@@ -587,6 +596,10 @@ class QosSim:
             self.ser = self.hub.add_port("/dev/sim0", self.gid, fw)
             self.tr = T.PortTransport(self.ser, self.proto, loop=self.loop)
         await self.proto.wait_for_connection_made(timeout=3)
+        if k("sig_echo", "ok") != "ok" and not self.mqtt:
+            self.hub.count("signature_echo_" + k("sig_echo"))
+            if self.tr.get_extra_info("active_gwy") is None:
+                self.ctx.probe("connected_without_knowing_the_gateway_id")
         self.connected = True
         for op in self.ops.values():
             self.by_wire[op.wire(self.gid)] = op
